@@ -198,7 +198,10 @@ def run_ordering(case: dict):
     rest_at, disc_at = case["rest_at"], case["disc_at"]
     info = {"S": b2s(S[:60]), "closed_at": tr.close_time()}
     exp_ok = b"20 text/gemini\r\n" + (b"B" if data.startswith(b"gemini") else b"S")
-    exp_to = b"40 Request timeout\r\n"
+    import re as _re
+
+    # "a 40 response": the status is fixed, the wording is the server's
+    exp_to = S if _re.fullmatch(rb"40 [^\r\n]{0,1024}\r\n", S) else b"40 <one header line>\r\n"
     completed_in_time = rest_at is not None and rest_at < 30.0 and (disc_at is None or disc_at >= rest_at)
     disc_before_anything = disc_at is not None and disc_at < 30.0 and (rest_at is None or rest_at > disc_at)
     if S and isinstance(srvsim.parse_wf(S), str):
